@@ -60,6 +60,19 @@ func (r *Rng) Float() float64 { return float64(r.U64()>>11) / float64(1<<53) }
 // Pick returns one of the ints.
 func (r *Rng) Pick(xs ...int) int { return xs[r.Intn(len(xs))] }
 
+// Perm returns a random permutation of 0..n-1.
+func (r *Rng) Perm(n int) []int {
+	p := make([]int, n)
+	for i := range p {
+		p[i] = i
+	}
+	for i := n - 1; i > 0; i-- {
+		j := r.Intn(i + 1)
+		p[i], p[j] = p[j], p[i]
+	}
+	return p
+}
+
 // Pick64 returns one of the int64s.
 func (r *Rng) Pick64(xs ...int64) int64 { return xs[r.Intn(len(xs))] }
 
